@@ -118,7 +118,9 @@ def firstBlk (p : Prog) : Nat → Nat → Nat → Bool
       | s :: rest =>
         match s with
         | .mtch r _ => (r.deriv x).alive || (r.nullable && go rest)
-        | .wait _ _ => true
+        -- (a wait takes any byte — it skips what does not match — but end-of-input is not a byte: only a pattern
+        --  that can itself begin with `end` lets end-of-input into the block)
+        | .wait r _ => x != symEnd || (r.deriv x).alive
         | .act _ => go rest
         | .cas _ _ cl els => (cl.any fun c => c.1.any fun pr => (pr.1.deriv x).alive) || els.isSome
         | .opt b => firstBlk p fuel b x || go rest
